@@ -129,6 +129,11 @@ func (se *ScriptEnv) answer(ev *refbmc.Event) (byte, []byte, bool) {
 		return 0xc0, ident, true
 	case o == "tmo":
 		return 0xc3, ident, true
+	case o == "busy:data":
+		// a BMC that does not cut its response short after a temporary code
+		return 0xc0, body, true
+	case o == "tmo:data":
+		return 0xc3, body, true
 	case strings.HasPrefix(o, "cc:"):
 		var c byte
 		fmt.Sscanf(o[3:], "%x", &c)
